@@ -557,6 +557,22 @@ def _d8(run: Run, w: World) -> None:
                             f"f-string `{norm(node, 70)}` in {fn.name} emits the literal text `{{{name}}}` although `{name}` is a variable in scope: "
                             f"the value is not substituted, so the page shows the placeholder instead of the module's own rendering")
     run.floor("D8", n, 40, "functions of the documentation generator scanned for unsubstituted placeholders")
+    # an indexed symbol is shown with ITS OWN index (x[k] when it was declared over k), not with the default one
+    ni = 0
+    for m in run.src.mods.values():
+        if not m.name.startswith(DOCS):
+            continue
+        for test in [x for x in ast.walk(m.tree) if isinstance(x, ast.If) and isinstance(x.test, ast.Call) and dotted(x.test.func) == "isinstance" and len(x.test.args) == 2
+                     and dotted(x.test.args[1]) == "IndexedSymbol" and isinstance(x.test.args[0], ast.Name)]:
+            v = test.test.args[0].id
+            for sub in [y for st in test.body for y in ast.walk(st) if isinstance(y, ast.Subscript) and isinstance(y.value, ast.Name) and y.value.id == v]:
+                ni += 1
+                run.ob("D8", f"{m.name}:indexed-symbol-own-index:{norm(sub, 30)}")
+                if dotted(sub.slice) != f"{v}.index":
+                    run.violate("D8", f"{m.name}:indexed-symbol-index:{norm(sub, 40)}", m, sub,
+                                f"`{norm(sub, 40)}` shows an indexed symbol with `{norm(sub.slice, 30)}` instead of its own `{v}.index`: a symbol declared over another index "
+                                f"(Idx('k')) is listed as x[i] while the formula on the same page reads Sum(x[k], k)")
+    run.floor("D8", ni, 2, "places where the generator applies an indexed symbol to an index")
 
 
 def _d6(run: Run, w: World) -> None:
